@@ -187,6 +187,18 @@ Theorem C03_initial_good :
 Proof. exact HsmTotal.initial_good. Qed.
 Print Assumptions C03_initial_good.
 
+(* ... for whole histories: from a good configuration (e.g. the initial one), whatever events are triggered in
+   whatever order, every single result is a boolean or the invalid-trigger error, and the final configuration is
+   good. *)
+Theorem C03_history_no_internal_error :
+  forall (hm : hmachine) (ev : env) (c : ctx),
+    (forall cb q, r_raise (ev cb q) = None) -> HsmReach.wf_defs hm = true -> HsmTotal.dst_ok hm = true ->
+    forall (es : list event) (p : nat) (f : forest), HsmTotal.good hm f ->
+      Forall HsmTotal.benign (fst (HsmTotal.run_seq hm ev c es p f)) /\
+      HsmTotal.good hm (snd (HsmTotal.run_seq hm ev c es p f)).
+Proof. exact HsmTotal.history_total. Qed.
+Print Assumptions C03_history_no_internal_error.
+
 (* non-vacuity: the machine of KF-C03-1 below meets the decidable hypotheses *)
 Example C03_no_internal_error_nonvacuous :
   let hm := mkHM [SDef 1 [] [] [] false None [2; 4] [(0, [mkHT [2] (Some [4; 5]) [] [] [20] []])]
